@@ -32,11 +32,11 @@ def run(tier, seed, scale):
     q = tier == "quick"
     t_wedge = 900
     phases = [
-        Phase("rel-mix", "c09", "rel", 110000 if q else 500000, procs=5 if q else 8, min_nontrivial=10000),
+        Phase("rel-mix", "c09", "rel", 110000 if q else 700000, procs=5 if q else 8, min_nontrivial=10000),
         Phase("rel-2cpu", "c09", "rel", 12000 if q else 60000, procs=2 if q else 3, cpus=2),
         Phase("rel-1cpu", "c09", "rel", 5000 if q else 24000, procs=1 if q else 2, cpus=1),
-        Phase("dbg-mix", "c09", "dbg", 30000 if q else 200000, procs=2 if q else 5),
-        Phase("tsan-mix", "c09", "tsan", 2400 if q else 30000, procs=2 if q else 5, timeout=1500),
+        Phase("dbg-mix", "c09", "dbg", 30000 if q else 300000, procs=2 if q else 5),
+        Phase("tsan-mix", "c09", "tsan", 2400 if q else 40000, procs=2 if q else 5, timeout=1500),
         # wedge-able classes: a wedge ends only that process (watchdog verdict); small case counts
         Phase("rel-R", "c09", "rel", 12 if q else 24, procs=2 if q else 3, args=["--mode", "R"], timeout=t_wedge),
         Phase("rel-B", "c09", "rel", 60 if q else 180, procs=2 if q else 3, args=["--mode", "B"], timeout=t_wedge),
@@ -45,8 +45,8 @@ def run(tier, seed, scale):
     ]
     if not q:
         phases += [
-            Phase("asan-mix", "c09", "asan", 40000, procs=4, timeout=1500),
-            Phase("rel-L", "c09", "rel", 240000, procs=3, args=["--mode", "L"]),
+            Phase("asan-mix", "c09", "asan", 60000, procs=4, timeout=1500),
+            Phase("rel-L", "c09", "rel", 360000, procs=3, args=["--mode", "L"]),
             Phase("rel-S", "c09", "rel", 4000, procs=3, args=["--mode", "S"]),
             Phase("rel-Q", "c09", "rel", 40000, procs=2, args=["--mode", "Q"]),
             Phase("rel-U", "c09", "rel", 50000, procs=2, args=["--mode", "U"]),
